@@ -357,6 +357,10 @@ class GraphBuilder:
         """Names of values reachable from `roots` through nodes."""
         tainted = set(roots)
         for nd in self.nodes:
+            # Shape and Size depend on the shape of their input only, which is
+            # not random: shape inference may legitimately fold them.
+            if nd["op"] in ("Shape", "Size"):
+                continue
             if any(i in tainted for i in nd["inputs"]):
                 tainted.update(o for o in nd["outputs"] if o)
         return sorted(tainted)
